@@ -249,7 +249,8 @@ RetAssign(c, err, v4, v6) ==
     IN
     /\ G("C07", \A t \in must : (t[1] = cl.e /\ t[2] = cl.fam /\ t[3] \in got) \/ t[3] \notin Fam(C(t[1]), t[2]))   \* assigned => reported (also with an error) or gone
     /\ G("C01", ~err => \A a \in got : a \in Fam(x, cl.fam) \/ <<cl.e, cl.fam, a>> \in rg)               \* reported => assigned to that interface
-    /\ G("C06", Cardinality(cl.mA) <= (IF cl.fam = 4 THEN cl.n4 ELSE cl.n6))                               \* the cloud was not made to assign more than asked
+    /\ G("C06", Cardinality(cl.mA \ rg) <= (IF cl.fam = 4 THEN cl.n4 ELSE cl.n6))                          \* the cloud was not made to assign more than asked
+                                  \* (an address taken away behind the daemon's back during the call, after which the retried token yields a fresh one, is not the factory's doing)
     /\ G("F", ~err => got \subseteq Fam(M(cl.e), cl.fam))                                                   \* visible in the metadata
     /\ acct' = [acct EXCEPT !.addrs = @ \cup Trip(cl.e, cl.fam, got), !.exA = @ \cup (cl.mA \ must),
                             !.handed = IF err THEN @ ELSE @ \cup Trip(cl.e, cl.fam, got)]
